@@ -11,6 +11,7 @@ import (
 
 	"github.com/anishathalye/porcupine"
 
+	mux "github.com/cbeuw/Cloak/internal/multiplex"
 	"github.com/cbeuw/Cloak/internal/server/usermanager"
 	"github.com/cbeuw/Cloak/internal/simsync"
 )
@@ -233,6 +234,45 @@ func runC18Lin(c *Ctx, scAny any) {
 		c.Inconclusive("linearizability check timed out")
 	default:
 		c.Probe(fmt.Sprintf("linearizable_history_%d_ops", len(history)/5*5))
+		// admission agrees with what the store now says (C15): a user can start a
+		// session iff the record exists, both credits are positive, the expiry lies
+		// ahead and the cap admits one session
+		probed := false
+		simsync.Go("h:admission-probe", func() {
+			defer func() { probed = true }()
+			admissionProbe(c, w, uids, do, upath)
+		})
+		c.Drive(func() bool { return probed })
+	}
+}
+
+func admissionProbe(c *Ctx, w *SrvWorld, uids [][]byte, do func(method, path string, body []byte) *httptest.ResponseRecorder, upath func(int) string) {
+	{
+		for u := range uids {
+			rec := do("GET", upath(u), nil)
+			want := false
+			if rec.Code == http.StatusOK {
+				var got usermanager.UserInfo
+				if json.Unmarshal(rec.Body.Bytes(), &got) == nil {
+					if v, missing := infoVals(got); missing == "" {
+						want = v[0] >= 1 && v[1] > 0 && v[2] > 0 && v[3] > 0 && v[4] > 0 && v[5] > time.Now().Unix()
+					}
+				}
+			}
+			admitted := false
+			if user, err := w.Sta.Panel.GetUser(uids[u]); err == nil {
+				var key [32]byte
+				obf, _ := mux.MakeObfuscator(mux.EncryptionMethodPlain, key)
+				if _, _, err := user.GetSession(9, mux.SessionConfig{Obfuscator: obf, InactivityTimeout: time.Hour}); err == nil {
+					admitted = true
+				}
+				user.CloseSession(9, "")
+			}
+			if admitted != want {
+				c.Fail("kv", "admission-disagrees", "user %d: the store says a new session is %s (record: %s), the server %s it", u, map[bool]string{true: "allowed", false: "not allowed"}[want], rec.Body.String(), map[bool]string{true: "admitted", false: "refused"}[admitted])
+				return
+			}
+		}
 	}
 }
 
@@ -245,4 +285,10 @@ func init() {
 			return p
 		}})
 	plans["C18"] = append(plans["C18"], "c18-linearizable")
+	// C15 ("a user whose credit is exhausted ... cannot start a session, for all
+	// histories of credit/expiry changes made through the admin API") and C16
+	// (exactly-once charging under admin-API changes) both rest on an
+	// acknowledged admin write not being undone by a concurrent upload
+	plans["C15"] = append(plans["C15"], "c18-linearizable")
+	plans["C16"] = append(plans["C16"], "c18-linearizable")
 }
